@@ -146,7 +146,8 @@ def law(fn, tag, args, r):
     if tag == 'split':
         s, sep = a
         if sep == '':
-            return None if ''.join(v) == s else 'pieces do not concatenate to the input'
+            # the definition the function is built on (Go's strings.Split): an empty separator splits after every character
+            return None if list(v) == list(s) else 'an empty separator must give one piece per character, got %r' % (v,)
         return None if sep.join(v) == s and all(sep not in p for p in v) else 'got %r' % (v,)
     if tag == 'default-or-env':
         name, dflt = a
